@@ -37,3 +37,4 @@ Definition k_flow_pack_asn1_integer : pfun :=
     SExpr (PMeth "reverse" (PName "b_int") []);
     SReturn (PCall "_pack_asn1" [(PAttr (PName "tag") "tag_class"); (PAttr (PName "tag") "is_constructed"); (PAttr (PName "tag") "tag_number"); (PName "b_int")])
   ] |}.
+Definition k_flow_pack_asn1_integer_defaults : list (string * pexp) := [("tag", PNone)].
